@@ -165,6 +165,22 @@ pub fn run_parser(
     sizes: &[u32],
     cap: usize,
 ) -> ParseRun {
+    run_parser_opt(core, src, mode, max_polls, read_payload, sizes, cap, false)
+}
+
+/// `parts_into_payload`: after parse_parts, read the rest through `reader.into_payload()` (an IppPayload) instead of
+/// `reader.into_inner()` (the raw source)
+#[allow(clippy::too_many_arguments)]
+pub fn run_parser_opt(
+    core: &Arc<SimCore>,
+    src: &SrcHandle,
+    mode: Mode,
+    max_polls: u64,
+    read_payload: bool,
+    sizes: &[u32],
+    cap: usize,
+    parts_into_payload: bool,
+) -> ParseRun {
     let mut out = ParseRun {
         outcome: Outcome::Panic("unset".into()),
         consumed_at_return: 0,
@@ -211,8 +227,14 @@ pub fn run_parser(
                     out.consumed_at_return = src.handed_out();
                     out.outcome = Outcome::Ok(canon(&h, &a));
                     if read_payload {
-                        let mut inner = reader.into_inner();
-                        match guarded(|| drain_sync(&mut inner, sizes, cap)) {
+                        let r = if parts_into_payload {
+                            let mut pl = reader.into_payload();
+                            guarded(|| drain_sync(&mut pl, sizes, cap))
+                        } else {
+                            let mut inner = reader.into_inner();
+                            guarded(|| drain_sync(&mut inner, sizes, cap))
+                        };
+                        match r {
                             Ok(d) => out.payload = Some(d),
                             Err(p) => out.outcome = Outcome::Panic(format!("payload read: {p}")),
                         }
@@ -268,8 +290,13 @@ pub fn run_parser(
                     Ok((h, a, reader)) => {
                         let c = canon(&h, &a);
                         let d = if read_payload {
-                            let mut inner = reader.into_inner();
-                            Some(drain_async(&mut inner, &sizes, cap).await)
+                            if parts_into_payload {
+                                let mut pl = reader.into_payload();
+                                Some(drain_async(&mut pl, &sizes, cap).await)
+                            } else {
+                                let mut inner = reader.into_inner();
+                                Some(drain_async(&mut inner, &sizes, cap).await)
+                            }
                         } else {
                             None
                         };
